@@ -27,10 +27,19 @@ def gen_build_spec(g, spec, box, kinds, est_size=0.6):
         hi = g.choice([i for i in idxs if i >= lo]) + 1
         if g.random() < 0.5:
             lo, hi = idxs[0], idxs[-1] + 1
+        contiguous = all(inst[i]["name"] == name for i in range(lo, hi))
         items = []
         resnames = sorted(set(mt["residues"]))
         usable = [k for k in kinds if k != "dist" or (mt["shape"] == "linear" and nres >= 4)]
         usable = [k for k in usable if k != "pers" or (mt["shape"] == "linear" and nres >= 5)]
+        if not contiguous:
+            # distance-type directives are applied by polyply to every index of the range whatever the molecule's
+            # name (a C18 matter, not claimed here): only ranges that hold this molecule type alone are generated
+            if any(k in usable for k in ("dist", "pers")):
+                run = [lo]
+                while run[-1] + 1 < len(inst) and inst[run[-1] + 1]["name"] == name:
+                    run.append(run[-1] + 1)
+                lo, hi = run[0], run[-1] + 1
         if not usable:
             continue
         chosen = set(g.sample(usable, g.randint(1, min(2, len(usable)))))
@@ -85,9 +94,16 @@ def gen_build_spec(g, spec, box, kinds, est_size=0.6):
             a = g.randint(0, nres - 4)
             b = g.randint(a + 3, nres - 1)
             span = (b - a) * est_size
-            d = round(g.uniform(max(0.3, 0.2 * span), 0.6 * span), 3)
             tol = round(g.uniform(0.1, 0.35), 3)
+            dmax = min(0.6 * span, 0.45 * min(box) - tol)
+            d = round(g.uniform(min(max(0.3, 0.2 * span), dmax), dmax), 3)
             items.append({"kind": "dist", "a": a, "b": b, "d": d, "tol": tol})
+            if b + 2 <= nres - 1 and g.random() < 0.6:
+                # a second, longer restraint from the same reference residue (listed after the shorter one)
+                b2 = g.randint(b + 2, nres - 1)
+                span2 = (b2 - a) * est_size
+                d2 = round(min(0.6 * span2, d + g.uniform(0.3, 0.8) * (b2 - b) * est_size, 0.45 * min(box) - tol), 3)
+                items.append({"kind": "dist", "a": a, "b": b2, "d": d2, "tol": tol})
         if "pers" in chosen:
             items.append({"kind": "pers", "model": "WCM", "lp": round(g.uniform(0.8, 4.0), 2), "start": 0,
                           "stop": nres - 1})
